@@ -405,8 +405,8 @@ def run_many(case):
 
 # --- huge magnitudes in array arguments: partial results that overflow with either or both signs ---------------------------
 HUGE_FN = ['MMULT', 'SUMPRODUCT', 'SUM', 'PRODUCT', 'SUMSQ', 'AVERAGE', 'STDEV', 'VAR', 'STDEVP', 'VARP', 'MAX', 'MIN', 'MEDIAN', 'DEVSQ', 'GEOMEAN', 'HARMEAN',
-           'SUMX2MY2', 'SUMX2PY2', 'SUMXMY2', 'CORREL', 'SLOPE', 'INTERCEPT', 'NPV', 'IRR']
-HUGE_ARR = ['{1E+200,1E+200}', '{1E+200;-1E+200}', '{1E+200;1E+200}', '{1E+200,-1E+200}', '{1E+308,1E+308}', '{1E+308;-1E+308}', '{-1E+308,-1E+308}', '{1E-200,1E-200}',
+           'SUMX2MY2', 'SUMX2PY2', 'SUMXMY2', 'CORREL', 'SLOPE', 'INTERCEPT', 'NPV', 'IRR', 'MDETERM', 'MINVERSE', 'TRANSPOSE', 'GCD', 'LCM', 'XNPV']
+HUGE_ARR = ['{1E+200,0;0,1E+200}', '{1E-320}', '{1E+308,1E+308;1,2}', '{1E-200,0;0,1E-200}', '{1E+200,1E+200}', '{1E+200;-1E+200}', '{1E+200;1E+200}', '{1E+200,-1E+200}', '{1E+308,1E+308}', '{1E+308;-1E+308}', '{-1E+308,-1E+308}', '{1E-200,1E-200}',
             '{1E+200,1E-200}', '{0,1E+308}']
 
 
